@@ -791,7 +791,7 @@ class StrategyActiveOnePlusLambda(object):
             self.A = self.A * a + b * numpy.outer(numpy.dot(self.A, w), w)
             self.invA = (1 / a * self.invA
                          - b / (a ** 2 + a * b * w_norm_sqrd)
-                         * numpy.dot(self.invA, numpy.outer(w, w)))
+                         * numpy.dot(numpy.outer(w, w), self.invA))
 
         # TODO: Add integer mutation i_I_R component
         self.sigma = self.sigma * numpy.exp(1.0 / self.d
